@@ -22,9 +22,14 @@ EXPLANATION = (
     "must route scope-introducing kinds to a handler that records bound names (R2); the decision "
     "lists of get_assign/get_load_name, extracted per namespace class, must denote the same storage "
     "for every model of the symtable predicates (R3, exhaustive truth table); the predicate that "
-    "accepts an enclosing function as birthplace of a free name must imply is_local (R4); nonlocal / "
+    "accepts an enclosing function as birthplace of a free name must imply is_local, is asked of the "
+    "symbol of the function whose sets are extended, and nonlocal_parameters is populated exactly "
+    "for parameters (R4); nonlocal / "
     "class dicts are created before use and class-dict loads have a fallback (R5); attributes defined "
-    "under a version guard are used only under it (R6); a rewritten walrus yields the stored value (R7)."
+    "under a version guard are used only under it (R6); a rewritten walrus yields the stored value (R7); "
+    "expr_transf hands every node to the driver (R8); open comprehensions are registered as a stack "
+    "that get_load_name consults entirely (R9); the statement driver's namespace stack and "
+    "generate_nsp pair every statement with the namespace of its scope (R10, R11)."
 )
 ASSUMPTIONS = [
     "symtable classifies each concrete program as CPython's compiler does (not decided here)",
